@@ -38,8 +38,8 @@ Fixpoint wf_toks (ts : list ttok) : bool :=
   | [] => true
   | TLit s :: r => free_of [c_dollar] s && wf_toks r
   | TRef ds :: r =>
-    wf_digits ds && wf_toks r &&
-    match r with TLit s :: _ => no_word_start s | _ => true end
+    (* what follows must not continue the identifier (longest-identifier rule of Expand) *)
+    wf_digits ds && wf_toks r && no_word_start (render_toks r)
   | TBrace ds :: r => wf_digits ds && wf_toks r
   end.
 
